@@ -199,7 +199,61 @@ func genRaiseBySettings(t *rapid.T, c *H2Case) {
 	add(sy)
 }
 
+// genServerEndsFirst: the server answers and ends its side of a stream while the client is still uploading (an early
+// error reply, a gRPC status sent before the request is consumed). The stream is then half-closed, not over: what the
+// client goes on sending is still subject to the window the server granted for that stream, which the server - done with
+// the stream - never enlarges.
+func genServerEndsFirst(t *rapid.T, c *H2Case) {
+	c.InitWinB = rapid.SampledFrom([]int{20000, 30000, 40000, 65535}).Draw(t, "sefwin")
+	k := rapid.IntRange(0, c.Streams-1).Draw(t, "sefstream")
+	base := Step{Pad: -1, InitWin: -1, MaxFrame: -1, TableSz: -1}
+	add := func(s Step) { c.Steps = append(c.Steps, s) }
+	h := base
+	h.Op, h.Side, h.Stream, h.Hdr = "headers", "A", k, 1
+	add(h)
+	pre := rapid.IntRange(0, 2).Draw(t, "sefpre")
+	for i := 0; i < pre; i++ {
+		d := base
+		d.Op, d.Side, d.Stream, d.Len = "data", "A", k, rapid.SampledFrom([]int{1000, 9000, 16384}).Draw(t, "sefprelen")
+		add(d)
+	}
+	sy := base
+	sy.Op, sy.Side = "sync", "A"
+	add(sy)
+	r := base
+	r.Op, r.Side, r.Stream, r.Hdr = "headers", "B", k, rapid.SampledFrom([]int{2, 3}).Draw(t, "sefhdr")
+	if rapid.Bool().Draw(t, "sefbody") {
+		add(r)
+		d := base
+		d.Op, d.Side, d.Stream, d.Len, d.End = "data", "B", k, rapid.SampledFrom([]int{0, 100, 9000}).Draw(t, "sefbodylen"), true
+		add(d)
+	} else {
+		r.End = true
+		add(r)
+	}
+	sy.Side = "B"
+	add(sy)
+	n := rapid.IntRange(3, 7).Draw(t, "sefdata")
+	for i := 0; i < n; i++ {
+		d := base
+		d.Op, d.Side, d.Stream, d.Len = "data", "A", k, rapid.SampledFrom([]int{16384, 16000, 9000}).Draw(t, "seflen")
+		d.End = i == n-1 && rapid.Bool().Draw(t, "sefend")
+		add(d)
+		if rapid.IntRange(0, 3).Draw(t, "sefconn") == 0 {
+			g := base
+			g.Op, g.Side, g.Stream, g.Inc = "wupdate", "B", -1, 65535 // the connection's window is no obstacle
+			add(g)
+		}
+	}
+	sy.Side = "A"
+	add(sy)
+}
+
 func genSteps(t *rapid.T, c *H2Case, flow bool) {
+	if flow && rapid.Bool().Draw(t, "serverendsfirst1") && rapid.Bool().Draw(t, "serverendsfirst2") && rapid.Bool().Draw(t, "serverendsfirst3") {
+		genServerEndsFirst(t, c)
+		return
+	}
 	if rapid.IntRange(0, 5).Draw(t, "raisebysettings") == 0 {
 		genRaiseBySettings(t, c)
 		return
@@ -1504,7 +1558,18 @@ func classifyH2(c H2Case) (bool, string, []string) {
 	pad, sett, cont, trailers := false, false, false, false
 	sides := map[string]bool{}
 	perStream := map[int]int{}
+	endedByB := map[int]bool{}
+	afterEnd := map[int]int{}
 	for _, s := range c.Steps {
+		if (s.Op == "data" || s.Op == "headers") && s.Side == "B" && s.End {
+			endedByB[s.Stream] = true
+		}
+		if s.Op == "data" && s.Side == "A" && endedByB[s.Stream] {
+			afterEnd[s.Stream] += s.Len
+			if afterEnd[s.Stream] > c.InitWinB && afterEnd[s.Stream]-s.Len <= c.InitWinB {
+				cls = append(cls, "upload-beyond-the-window-after-the-server-ended-the-stream")
+			}
+		}
 		switch s.Op {
 		case "data":
 			if s.Pad >= 0 {
